@@ -163,6 +163,7 @@ var (
 
 // SetupInline computes InlineSite/InlinedAt for the functions of the module.
 func SetupInline(p *Prog) {
+	envProg = p
 	InlineSite = map[*ssa.Function]ssa.Instruction{}
 	InlinedAt = map[ssa.Instruction]*ssa.Function{}
 	uses := map[*ssa.Function]int{}
@@ -174,6 +175,18 @@ func SetupInline(p *Prog) {
 				callee = cc.StaticCallee()
 				if mc, ok := cc.Value.(*ssa.MakeClosure); ok {
 					callee, _ = mc.Fn.(*ssa.Function)
+				}
+			}
+			// a method value h.m taken of a struct built right here (what remains of a function literal
+			// after a "closure to struct with a method" clean-up): the struct is the closure's environment
+			if mc, ok := in.(*ssa.MakeClosure); ok {
+				if m, recv := BoundMethod(p, mc); m != nil {
+					if al, isAl := recv.(*ssa.Alloc); isAl && al.Parent() == fn && al.Heap {
+						uses[m]++
+						site[m] = in
+					} else {
+						uses[m] += 100
+					}
 				}
 			}
 			for _, op := range in.Operands(nil) {
@@ -205,6 +218,105 @@ func SetupInline(p *Prog) {
 		InlineSite[fn] = site[fn]
 		InlinedAt[site[fn]] = fn
 	}
+}
+
+// BoundMethod resolves the bound-method closure mc (a method value x.m) to the
+// method and the receiver value, or nil.
+func BoundMethod(p *Prog, mc *ssa.MakeClosure) (*ssa.Function, ssa.Value) {
+	fn, _ := mc.Fn.(*ssa.Function)
+	if fn == nil || !strings.HasSuffix(fn.Name(), "$bound") || len(mc.Bindings) != 1 {
+		return nil, nil
+	}
+	obj, _ := fn.Object().(*types.Func)
+	if obj == nil {
+		return nil, nil
+	}
+	return p.SSA.FuncValue(obj), mc.Bindings[0]
+}
+
+// ParentOf is fn.Parent() for a function literal; for a method that stands for
+// one (InlineSite is the MakeClosure of its method value) the function that
+// takes the method value; nil otherwise.
+func ParentOf(fn *ssa.Function) *ssa.Function {
+	if fn == nil {
+		return nil
+	}
+	if par := fn.Parent(); par != nil {
+		return par
+	}
+	if mc, ok := InlineSite[fn].(*ssa.MakeClosure); ok {
+		return mc.Parent()
+	}
+	return nil
+}
+
+// EnvFieldStores: for a load of field f through the receiver of a method that
+// stands for a function literal (see ParentOf), the stores to that field of the
+// environment struct made where it is built; ok only if nothing else in the
+// module writes that field of that type (the field is then a captured variable
+// that is never reassigned).
+func EnvFieldStores(fa *ssa.FieldAddr) (vals []ssa.Value, ok bool) {
+	if len(InlineSite) == 0 {
+		return nil, false
+	}
+	par, isPar := fa.X.(*ssa.Parameter)
+	if !isPar {
+		// the receiver spilled to a cell because nested literals capture it
+		if _, isLoad := fa.X.(*ssa.UnOp); !isLoad || envBusy {
+			return nil, false
+		}
+		envBusy = true
+		os := Origins(fa.X)
+		envBusy = false
+		if len(os) != 1 {
+			return nil, false
+		}
+		if par, isPar = os[0].(*ssa.Parameter); !isPar {
+			return nil, false
+		}
+	}
+	mc, isMC := InlineSite[par.Parent()].(*ssa.MakeClosure)
+	if !isMC || len(par.Parent().Params) == 0 || par.Parent().Params[0] != par || len(mc.Bindings) != 1 {
+		return nil, false
+	}
+	al, isAl := mc.Bindings[0].(*ssa.Alloc)
+	if !isAl {
+		return nil, false
+	}
+	st := Deref(al.Type())
+	foreign := false
+	for _, fn := range envProg.Funcs {
+		Instrs(fn, func(in ssa.Instruction) {
+			s, isS := in.(*ssa.Store)
+			if !isS {
+				return
+			}
+			fa2, isFA := s.Addr.(*ssa.FieldAddr)
+			if !isFA || fa2.Field != fa.Field || !types.Identical(Deref(fa2.X.Type()), st) {
+				return
+			}
+			if fa2.X == ssa.Value(al) {
+				vals = append(vals, s.Val)
+			} else {
+				foreign = true
+			}
+		})
+	}
+	if foreign || len(vals) == 0 {
+		return nil, false
+	}
+	return vals, true
+}
+
+var envProg *Prog
+var envBusy bool
+
+// Deref strips one pointer level.
+func Deref(t types.Type) types.Type {
+	if pt, ok := t.Underlying().(*types.Pointer); ok {
+		return pt.Elem()
+	}
+	return t
 }
 
 // implementsSomeInterfaceMethod: the method's name is a method of some
@@ -766,6 +878,14 @@ func ResolveFree(v ssa.Value) ssa.Value {
 			// a parameter of a "virtual closure" stands for the argument of its only call
 			site := InlineSite[par.Parent()]
 			if site == nil {
+				return v
+			}
+			if mc, isMC := site.(*ssa.MakeClosure); isMC {
+				// a method used only as the method value of a struct built at the site: the receiver is that struct
+				if len(par.Parent().Params) > 0 && par.Parent().Params[0] == par && len(mc.Bindings) == 1 {
+					v = mc.Bindings[0]
+					continue
+				}
 				return v
 			}
 			cc := CallOf(site)
